@@ -62,3 +62,16 @@ Example C06_example :
   /\ snd (positions (run_passes adv 0 [[mkrule 0 [[67]; [68]]%N [[]; [AAttach (-1); AAttPt 100 300; AWithPt 10 20]] None]] (map sl [67; 68; 70]%N)))
      = [(0%N, (0, 0)); (1%N, (90, 280)); (2%N, (552, 0))]%Z.
 Proof. vm_compute. repeat split. Qed.
+
+(* At the level of the font's tables: the rule list Pass::runFSM hands to findNDoRule -- which tries the rules in list order and applies
+   the first whose constraint holds -- is in precedence order (no rule is preceded by one of lower precedence: higher sort key first, then
+   the lower rule number) and holds only rules of states of the machine, for the tables the loader builds from ARBITRARY pass bytes and
+   any glyph string and context.  (Which states the machine goes through is the font compiler's business; the correspondence of C02 runs
+   the real runFSM against this model.) *)
+From GR Require Import Base.Mem Model.FsmModel Proofs.FsmProofs Proofs.FsmOrder.
+From Coq Require Import Sorted.
+Theorem C06_fsm_rules_in_precedence_order : forall (l : bytes) f ctx gids ok n rs,
+  read_fsm (mem_of_list l) = FOk f -> run_fsm f ctx gids = Some (ok, n, rs) ->
+  StronglySorted (fun a b => rule_lt (f_sort f) b a = false) rs /\ (forall x, In x rs -> exists sr, In sr (f_rules f) /\ In x sr).
+Proof. intros l f ctx gids ok n rs Hr Hf. exact (run_fsm_rules_in_precedence_order f ctx gids ok n rs (read_fsm_sorted _ _ Hr) Hf). Qed.
+Print Assumptions C06_fsm_rules_in_precedence_order.
